@@ -11,8 +11,12 @@
 (*                                                                         *)
 (* Total, purely functional state machine over the harness event           *)
 (* vocabulary; a violation sets m.bad to "<property>:<reason>".  Only what *)
-(* the property statements say is asserted; obligations are lifted as soon *)
-(* as the connection is ending for a cause the monitor has seen.           *)
+(* the property statements say is asserted.  An `in` event is the moment   *)
+(* the peer WROTE a packet; the endpoint processes it later (possibly much *)
+(* later while reading is paused), so every rule about acceptance is       *)
+(* evaluated at an observable processing event (handler start, response,   *)
+(* refusal), never at `in`.  Obligations are lifted as soon as the         *)
+(* connection is ending for a cause the monitor has seen.                  *)
 (***************************************************************************)
 EXTENDS Naturals, Integers, Sequences, FiniteSets, TLC
 
@@ -20,37 +24,31 @@ IdxOf(seq, P(_)) ==
   IF \E i \in 1..Len(seq) : P(seq[i])
   THEN CHOOSE i \in 1..Len(seq) : P(seq[i]) /\ \A j \in 1..(i-1) : ~P(seq[j])
   ELSE 0
+Without(seq, i) == SubSeq(seq, 1, i-1) \o SubSeq(seq, i+1, Len(seq))
 
 Init ==
   [ bad |-> "none", ver |-> 5, role |-> "server",
     est |-> FALSE,          \* handshake completed
     term |-> FALSE,         \* the connection is ending (cause seen)
-    cause |-> "none",       \* first termination cause: peer | local | proto | error | timeout
-    \* configuration the monitor computes limits from
+    cause |-> "none",       \* first termination cause: peer | local | proto | error
     maxReceive |-> 16, maxQos |-> 2, aliasMax |-> 32, recvSize |-> 65535,
-    \* publishes: [n, id, q, topic, size, flags, st, h, acked, recd, rel, comp, code, chunked]
+    \* publishes in arrival order:
+    \*   [n, id, q, topic, size, st, h, acked, recd, rel, comp, code, refused, relProduced, noalias]
     \*   st: arrived | started | ok | err | nack
     pubs |-> << >>,
-    \* refusals owed for duplicate ids: [id, kind]  (v5: answered with reason 0x91)
-    dups |-> << >>,
-    notfound |-> << >>,     \* v5: PUBREL for unknown id -> PUBCOMP 0x92 owed: ids
-    maynf |-> << >>,        \* v5: PUBREL for an id used otherwise: PUBCOMP 0x92 tolerated
-    needProto |-> FALSE,    \* a protocol-error stop is due by the next quiescence
-    needWhy |-> "none",
-    inuse |-> {},           \* ids of QoS>0 PUBLISH / SUBSCRIBE / UNSUBSCRIBE exchanges in progress
-    reqs |-> << >>,         \* response-bearing requests in arrival order: [kind, id, st]
-                            \*   st: wait | answered | failed
+    \* other requests that bear a response, in arrival order:
+    \*   [n, kind, id, st, h, produced]   kind: pubrel | pubrel_nf | pubrel_early | sub | unsub | ping
+    \*   st: wait | answered | failed | refused
+    reqs |-> << >>,
     narr |-> 0,
-    running |-> 0,          \* publish handlers started and not ended
-    maxRunning |-> 0,
+    needProto |-> FALSE, needWhy |-> "none",
+    running |-> 0, maxRunning |-> 0,
     aliases |-> << >>,      \* alias bindings: [a, topic]
     stops |-> 0, stopProto |-> FALSE, stopError |-> FALSE, stopPeer |-> FALSE,
-    discOut |-> 0, discIn |-> FALSE, afterDisc |-> FALSE,
+    discOut |-> 0, discIn |-> FALSE,
     expectDisc |-> -1,      \* v5: reason code the DISCONNECT must carry (-1 = no expectation)
     appDisc |-> FALSE,      \* the application supplied / asked for its own DISCONNECT
-    connDone |-> FALSE,
-    gateStop |-> FALSE,
-    unread |-> 0
+    connDone |-> FALSE, gateStop |-> FALSE
   ]
 
 Healthy(m) == m.est /\ ~m.term
@@ -58,15 +56,34 @@ Fail(m, why) == IF m.bad = "none" THEN [m EXCEPT !.bad = why] ELSE m
 End(m, c) == [m EXCEPT !.term = TRUE, !.cause = IF @ = "none" THEN c ELSE @]
 NeedProto(m, why) == [m EXCEPT !.needProto = TRUE, !.needWhy = IF @ = "none" THEN why ELSE @]
 
-HasWild(t) == FALSE   \* (strings are opaque to TLC; wildcard topics are not generated)
-
 AliasTopic(m, a) ==
   LET i == IdxOf(m.aliases, LAMBDA b : b.a = a) IN IF i = 0 THEN "" ELSE m.aliases[i].topic
 
-RespName(kind) ==
-  CASE kind = "pub1" -> "PUBACK" [] kind = "pub2" -> "PUBREC" [] kind = "pubrel" -> "PUBCOMP"
-    [] kind = "sub" -> "SUBACK" [] kind = "unsub" -> "UNSUBACK" [] kind = "ping" -> "PINGRESP"
-    [] OTHER -> "NONE"
+\* the endpoint has PRODUCED the final acknowledgement of the exchange (it may still sit in the
+\* ordered response queue): from here on the identifier may be accepted again
+PubProduced(m, p) ==
+  \/ p.refused
+  \/ p.q = 0
+  \/ (p.q = 1 /\ p.st \in {"ok", "nack", "err"})
+  \/ (p.q = 2 /\ (p.relProduced \/ (m.ver = 5 /\ p.st = "nack") \/ p.st = "err"))
+\* ... and has WRITTEN it
+PubAcked(p) == p.refused \/ p.q = 0 \/ (p.q = 1 /\ p.acked) \/ (p.q = 2 /\ p.comp) \/ p.st = "err"
+
+\* some exchange that arrived before packet number n still holds identifier id (MUST refuse)
+BusyBefore(m, id, n) ==
+  \/ \E i \in 1..Len(m.pubs) :
+        m.pubs[i].n < n /\ m.pubs[i].id = id /\ m.pubs[i].q > 0 /\ m.pubs[i].st # "arrived"
+        /\ ~PubProduced(m, m.pubs[i])
+  \/ \E i \in 1..Len(m.reqs) :
+        m.reqs[i].n < n /\ m.reqs[i].kind \in {"sub", "unsub"} /\ m.reqs[i].id = id
+        /\ m.reqs[i].st = "wait" /\ m.reqs[i].h # 0 /\ ~m.reqs[i].produced
+\* ... or has not put its acknowledgement on the wire yet (MAY refuse)
+MaybeBusyBefore(m, id, n) ==
+  \/ \E i \in 1..Len(m.pubs) :
+        m.pubs[i].n < n /\ m.pubs[i].id = id /\ m.pubs[i].q > 0 /\ ~PubAcked(m.pubs[i])
+  \/ \E i \in 1..Len(m.reqs) :
+        m.reqs[i].n < n /\ m.reqs[i].kind \in {"sub", "unsub"} /\ m.reqs[i].id = id
+        /\ m.reqs[i].st = "wait"
 
 ----------------------------------------------------------------------------
 OnCfg(m, ev) ==
@@ -82,89 +99,56 @@ OnCfg(m, ev) ==
     [] ev.k = "gate_stop" -> [m EXCEPT !.gateStop = (ev.n # 0)]
     [] OTHER -> m
 
-\* a request that bears a response enters the arrival-order list
 AddReq(m, kind, id) ==
-  [m EXCEPT !.reqs = Append(@, [kind |-> kind, id |-> id, st |-> "wait", h |-> 0, produced |-> FALSE])]
-
-\* C11: an identifier MUST be refused from the arrival of its packet until the endpoint has
-\* produced the final acknowledgement of the exchange (handler finished); until that
-\* acknowledgement is actually written (it may sit in the ordered response queue) a reuse MAY
-\* be refused as well.  m.inuse is the MAY set.
-Must(m, id) ==
-  \/ \E i \in 1..Len(m.pubs) :
-        LET p == m.pubs[i] IN
-        /\ p.id = id /\ p.q > 0 /\ ~p.refused /\ ~p.maybe
-        /\ IF p.q = 1 THEN p.st \in {"arrived", "started"}
-           ELSE ~p.relProduced /\ ~(m.ver = 5 /\ p.st = "nack")
-  \/ \E i \in 1..Len(m.reqs) :
-        m.reqs[i].kind \in {"sub", "unsub"} /\ m.reqs[i].id = id /\ ~m.reqs[i].produced
-                                              /\ m.reqs[i].st = "wait"
+  [m EXCEPT !.reqs = Append(@, [n |-> m.narr + 1, kind |-> kind, id |-> id, st |-> "wait",
+                                h |-> 0, produced |-> FALSE]),
+            !.narr = @ + 1]
 
 OnInPublish(m, ev) ==
   LET n == m.narr + 1
-      m0 == [m EXCEPT !.narr = n]
       alias == ev.s
-      \* topic alias resolution (MQTT 5)
       bound == AliasTopic(m, alias)
       topic == IF m.ver = 5 /\ alias > 0 /\ ev.x = "" THEN bound ELSE ev.x
       unresolved == m.ver = 5 /\ alias > 0 /\ ev.x = "" /\ bound = ""
       overMax == m.ver = 5 /\ alias > 0 /\ ev.x # "" /\ bound = "" /\ alias > m.aliasMax
       m1 == IF m.ver = 5 /\ alias > 0 /\ ev.x # "" /\ ~overMax
-              THEN [m0 EXCEPT !.aliases =
+              THEN [m EXCEPT !.aliases =
                       LET i == IdxOf(@, LAMBDA b : b.a = alias) IN
                       IF i = 0 THEN Append(@, [a |-> alias, topic |-> ev.x])
                       ELSE [@ EXCEPT ![i].topic = ev.x]]
-              ELSE m0
-      rec == [n |-> n, id |-> ev.id, q |-> ev.q, topic |-> topic, size |-> ev.n, flags |-> 0,
+              ELSE m
+      rec == [n |-> n, id |-> ev.id, q |-> ev.q, topic |-> topic, size |-> ev.n,
               st |-> "arrived", h |-> 0, acked |-> FALSE, recd |-> FALSE, rel |-> FALSE,
-              comp |-> FALSE, code |-> 0, refused |-> FALSE, maybe |-> FALSE, relProduced |-> FALSE]
+              comp |-> FALSE, code |-> 0, refused |-> FALSE, relProduced |-> FALSE,
+              noalias |-> (unresolved \/ overMax), aliased |-> (alias > 0)]
+      m2 == [m1 EXCEPT !.pubs = Append(@, rec), !.narr = n]
   IN
-  IF ~Healthy(m) THEN m0
-  ELSE IF ev.q > 0 /\ ev.id \in m.inuse /\ ~Must(m, ev.id) THEN
-     \* the previous exchange is finished but its acknowledgement is not on the wire yet:
-     \* the endpoint may refuse or accept; nothing is demanded for this packet
-     [m1 EXCEPT !.pubs = Append(@, [rec EXCEPT !.maybe = TRUE])]
-  ELSE IF ev.q > 0 /\ ev.id \in m.inuse THEN
-     \* C11: an in-use identifier: never delivered; v3 stop, v5 reason 0x91
-     (IF m.ver = 3
-        THEN NeedProto([m1 EXCEPT !.pubs = Append(@, [rec EXCEPT !.refused = TRUE])], "C11:duplicate-id-must-end-v3-connection")
-        ELSE [m1 EXCEPT !.pubs = Append(@, [rec EXCEPT !.refused = TRUE]),
-                        !.dups = Append(@, [id |-> ev.id, kind |-> "pub"])])
-  ELSE IF unresolved \/ overMax THEN
-     \* C17: unknown alias / alias above the advertised maximum: protocol error, no handler
-     NeedProto([m1 EXCEPT !.pubs = Append(@, [rec EXCEPT !.refused = TRUE])],
-               IF unresolved THEN "C17:unbound-alias-must-end-connection" ELSE "C17:alias-above-maximum-must-end-connection")
-  ELSE
-     LET m2 == [m1 EXCEPT !.pubs = Append(@, rec),
-                          !.inuse = IF ev.q > 0 THEN @ \cup {ev.id} ELSE @]
-     IN IF ev.q = 1 THEN AddReq(m2, "pub1", ev.id)
-        ELSE IF ev.q = 2 THEN AddReq(m2, "pub2", ev.id)
-        ELSE m2
+  IF ~Healthy(m) THEN [m EXCEPT !.narr = n]
+  ELSE IF unresolved THEN NeedProto(m2, "C17:unbound-alias-must-end-connection")
+  ELSE IF overMax THEN NeedProto(m2, "C17:alias-above-maximum-must-end-connection")
+  ELSE m2
 
 OnInPubrel(m, ev) ==
   IF ~Healthy(m) THEN m ELSE
-  LET i == IdxOf(m.pubs, LAMBDA p : p.id = ev.id /\ p.q = 2 /\ ~p.refused /\ ~p.maybe /\ ~p.comp /\ ~p.rel) IN
-  IF i > 0 /\ (m.pubs[i].recd \/ m.pubs[i].st = "ok")
-    THEN \* (PUBREC produced; it may still sit in the ordered response queue)
-         AddReq([m EXCEPT !.pubs[i].rel = TRUE], "pubrel", ev.id)
-  ELSE IF ev.id \in m.inuse
-    THEN \* the identifier is in use, but not by an exchange that waits for PUBREL: the
-         \* statement does not pin the answer down (v5: 0x92 is accepted, v3: protocol error)
-         [m EXCEPT !.maynf = Append(@, ev.id)]
+  LET i == IdxOf(m.pubs, LAMBDA p : p.id = ev.id /\ p.q = 2 /\ ~p.refused /\ ~p.comp /\ ~p.rel) IN
+  IF i > 0
+    THEN \* matches a QoS 2 publish: normally its PUBREC is out; if the peer is ahead of us the
+         \* answer is not pinned down (kind pubrel_early)
+         AddReq([m EXCEPT !.pubs[i].rel = TRUE],
+                IF m.pubs[i].recd \/ m.pubs[i].st = "ok" THEN "pubrel" ELSE "pubrel_early", ev.id)
+  ELSE IF \E k \in 1..Len(m.pubs) : m.pubs[k].id = ev.id /\ m.pubs[k].q > 0 /\ ~PubAcked(m.pubs[k])
+    THEN AddReq(m, "pubrel_early", ev.id)    \* id used by another exchange: not pinned down
+  ELSE IF \E k \in 1..Len(m.reqs) : m.reqs[k].id = ev.id /\ m.reqs[k].kind \in {"sub", "unsub"}
+                                     /\ m.reqs[k].st = "wait"
+    THEN AddReq(m, "pubrel_early", ev.id)
   ELSE IF m.ver = 3
-    THEN NeedProto(m, "C11:pubrel-for-unknown-id-must-end-v3-connection")
-    ELSE AddReq([m EXCEPT !.notfound = Append(@, ev.id)], "pubrel_nf", ev.id)
+    THEN NeedProto(AddReq(m, "pubrel_early", ev.id), "C11:pubrel-for-unknown-id-must-end-v3-connection")
+    ELSE AddReq(m, "pubrel_nf", ev.id)
 
 OnInSub(m, ev, kind) ==
   IF ~Healthy(m) THEN m
   ELSE IF m.role = "client" THEN NeedProto(m, "C16:unexpected-packet-must-end-connection")
-  ELSE IF ev.id \in m.inuse /\ ~Must(m, ev.id) THEN
-     \* may be refused or accepted: remembered so that its response is not "unsolicited"
-     [m EXCEPT !.reqs = Append(@, [kind |-> kind, id |-> ev.id, st |-> "maybe", h |-> 0, produced |-> FALSE])]
-  ELSE IF ev.id \in m.inuse THEN
-     (IF m.ver = 3 THEN NeedProto(m, "C11:duplicate-id-must-end-v3-connection")
-      ELSE [m EXCEPT !.dups = Append(@, [id |-> ev.id, kind |-> kind])])
-  ELSE AddReq([m EXCEPT !.inuse = @ \cup {ev.id}], kind, ev.id)
+  ELSE AddReq(m, kind, ev.id)
 
 OnIn(m, ev) ==
   CASE ev.k = "CONNECT" -> m
@@ -183,34 +167,32 @@ OnIn(m, ev) ==
 OnHStart(m, ev) ==
   IF ev.k = "hs" THEN m
   ELSE IF ev.k # "pub" THEN
-    \* protocol-control handlers run one at a time in arrival order (server): the k-th handler
-    \* of a kind belongs to the k-th waiting request of that kind
-    LET j == IdxOf(m.reqs, LAMBDA r : r.kind = ev.k /\ r.h = 0 /\ r.st \in {"wait", "maybe"}
+    \* protocol-control handlers run in arrival order: the next waiting request of that kind
+    LET kinds == IF ev.k = "pubrel" THEN {"pubrel", "pubrel_early"} ELSE {ev.k}
+        j == IdxOf(m.reqs, LAMBDA r : r.kind \in kinds /\ r.h = 0 /\ r.st = "wait"
                                        /\ (ev.id = 0 \/ r.id = ev.id)) IN
-    IF j = 0 THEN m ELSE [m EXCEPT !.reqs[j].h = ev.s]
+    IF j = 0 THEN m
+    ELSE LET r == m.reqs[j]
+             m1 == [m EXCEPT !.reqs[j].h = ev.s]
+         IN IF Healthy(m) /\ r.kind \in {"sub", "unsub"} /\ BusyBefore(m, r.id, r.n)
+              THEN Fail(m1, "C11:in-use-identifier-delivered-to-handler")
+              ELSE m1
   ELSE
-    LET i0 == IdxOf(m.pubs, LAMBDA p : p.st = "arrived" /\ ~p.refused /\ ~p.maybe /\ p.id = ev.id /\ p.q = ev.q)
-        i1 == IdxOf(m.pubs, LAMBDA p : p.st = "arrived" /\ ~p.refused /\ p.maybe /\ p.id = ev.id /\ p.q = ev.q)
-        i == IF i0 > 0 THEN i0 ELSE i1
-        j == IdxOf(m.pubs, LAMBDA p : p.refused /\ p.id = ev.id /\ p.q = ev.q /\ p.st = "arrived")
+    LET i == IdxOf(m.pubs, LAMBDA p : p.st = "arrived" /\ ~p.refused /\ p.id = ev.id /\ p.q = ev.q)
         run == m.running + 1
         m0 == [m EXCEPT !.running = run, !.maxRunning = IF run > @ THEN run ELSE @]
     IN
     IF ~m.est THEN Fail(m0, "C19:handler-before-handshake")
     ELSE IF i = 0 THEN
-       (IF j > 0
-          THEN Fail([m0 EXCEPT !.pubs[j].st = "started", !.pubs[j].h = ev.s],
-                    IF ev.x = "" \/ m.pubs[j].topic = "" THEN "C17:unresolvable-alias-reached-handler"
-                    ELSE "C11:in-use-identifier-delivered-to-handler")
-          ELSE IF m.term THEN m0
-          ELSE Fail(m0, "C03:handler-invoked-without-matching-publish-or-twice"))
+       (IF m.term THEN m0 ELSE Fail(m0, "C03:handler-invoked-without-matching-publish-or-twice"))
     ELSE
       LET p == m.pubs[i]
-          ma == [m0 EXCEPT !.pubs[i].st = "started", !.pubs[i].h = ev.s, !.pubs[i].maybe = FALSE,
-                           !.inuse = IF p.q > 0 THEN @ \cup {p.id} ELSE @]
-          m1 == IF p.maybe THEN AddReq(ma, IF p.q = 1 THEN "pub1" ELSE "pub2", p.id)
-                ELSE IF p.q = 0 THEN ma ELSE ma
-      IN IF p.topic # ev.x THEN Fail(m1, IF m.ver = 5 /\ Len(m.aliases) > 0 THEN "C17:handler-saw-wrong-topic" ELSE "C03:handler-saw-wrong-topic")
+          m1 == [m0 EXCEPT !.pubs[i].st = "started", !.pubs[i].h = ev.s]
+      IN IF p.noalias THEN Fail(m1, "C17:unresolvable-alias-reached-handler")
+         ELSE IF p.q > 0 /\ BusyBefore(m, p.id, p.n) /\ Healthy(m)
+           THEN Fail(m1, "C11:in-use-identifier-delivered-to-handler")
+         ELSE IF p.topic # ev.x
+           THEN Fail(m1, IF p.aliased THEN "C17:handler-saw-wrong-topic" ELSE "C03:handler-saw-wrong-topic")
          ELSE IF p.size # ev.n THEN Fail(m1, "C03:handler-saw-wrong-payload-size")
          ELSE IF m.role = "server" /\ m.ver = 3 /\ m.maxReceive > 0 /\ run > m.maxReceive /\ Healthy(m)
            THEN Fail(m1, "C12:more-concurrent-handlers-than-max-receive")
@@ -223,18 +205,13 @@ OnHEnd(m, ev) ==
      (IF j = 0 THEN m
       ELSE LET r == m.reqs[j]
                m1 == [m EXCEPT !.reqs[j].produced = TRUE,
-                               !.reqs[j].st = IF ev.k \in {"ok"} THEN @ ELSE "failed"]
+                               !.reqs[j].st = IF ev.k = "ok" THEN @ ELSE "failed"]
                pi == IdxOf(m.pubs, LAMBDA p : p.id = r.id /\ p.q = 2 /\ p.rel /\ ~p.relProduced /\ ~p.refused)
-           IN IF r.kind = "pubrel" /\ pi > 0 THEN [m1 EXCEPT !.pubs[pi].relProduced = TRUE] ELSE m1)
-  ELSE LET st == CASE ev.k \in {"ok"} -> "ok" [] ev.k \in {"nack", "nack_ok"} -> "nack" [] OTHER -> "err"
-           m1 == [m EXCEPT !.pubs[i].st = st, !.pubs[i].code = ev.r,
-                           !.running = IF @ > 0 THEN @ - 1 ELSE 0]
-           p == m.pubs[i]
-           \* a failing handler: its request will not be answered with success
-           ri == IdxOf(m.reqs, LAMBDA r : r.st = "wait" /\ r.id = p.id /\ r.kind \in {"pub1", "pub2"})
-       IN IF st = "err" \/ (st = "nack" /\ m.ver = 3)
-            THEN (IF ri > 0 THEN [m1 EXCEPT !.reqs[ri].st = "failed"] ELSE m1)
-            ELSE m1
+           IN IF r.kind \in {"pubrel", "pubrel_early"} /\ pi > 0
+                THEN [m1 EXCEPT !.pubs[pi].relProduced = TRUE] ELSE m1)
+  ELSE LET st == CASE ev.k = "ok" -> "ok" [] ev.k \in {"nack", "nack_ok"} -> "nack" [] OTHER -> "err"
+       IN [m EXCEPT !.pubs[i].st = st, !.pubs[i].code = ev.r,
+                    !.running = IF @ > 0 THEN @ - 1 ELSE 0]
 
 OnHDrop(m, ev) ==
   LET i == IdxOf(m.pubs, LAMBDA p : p.h = ev.s /\ p.st = "started") IN
@@ -242,91 +219,106 @@ OnHDrop(m, ev) ==
   ELSE LET m1 == [m EXCEPT !.pubs[i].st = "err", !.running = IF @ > 0 THEN @ - 1 ELSE 0] IN
        IF Healthy(m) THEN Fail(m1, "C07:handler-cancelled-on-healthy-connection") ELSE m1
 
-\* C04: the response to request j is written: no earlier response-bearing request may still wait
-Answer(m, kind, id) ==
-  LET j == IdxOf(m.reqs, LAMBDA r : r.st \in {"wait", "maybe"} /\ r.kind = kind /\ r.id = id) IN
-  IF j = 0 THEN m
-  ELSE LET m1 == [m EXCEPT !.reqs[j].st = "answered"] IN
-       IF Healthy(m) /\ \E i \in 1..(j-1) : m.reqs[i].st = "wait"
-         THEN Fail(m1, "C04:response-overtook-an-earlier-request")
-         ELSE m1
+\* C04: a response is written.  Everything that arrived before its request and bears a response
+\* must have been answered already (or has failed / been refused).
+WaitingBefore(m, n) ==
+  \/ \E i \in 1..Len(m.pubs) :
+        LET p == m.pubs[i] IN
+        p.n < n /\ p.q > 0 /\ ~p.refused /\ p.st # "err"
+        /\ ((p.q = 1 /\ ~p.acked) \/ (p.q = 2 /\ ~p.recd))
+        /\ ~(p.st = "nack" /\ m.ver = 3)
+  \/ \E i \in 1..Len(m.reqs) :
+        m.reqs[i].n < n /\ m.reqs[i].st = "wait" /\ m.reqs[i].kind # "pubrel_early"
+Ordered(m, m1, n) ==
+  IF Healthy(m) /\ WaitingBefore(m, n) THEN Fail(m1, "C04:response-overtook-an-earlier-request") ELSE m1
+
+\* v5: a publish refused with reason 0x91 (Packet Identifier in use)
+Refusal(m, ev) ==
+  LET i == IdxOf(m.pubs, LAMBDA p : p.id = ev.id /\ p.q > 0 /\ p.st = "arrived" /\ ~p.refused
+                                     /\ MaybeBusyBefore(m, p.id, p.n)) IN
+  IF i > 0 THEN [m EXCEPT !.pubs[i].refused = TRUE]
+  ELSE IF ~Healthy(m) THEN m
+  ELSE Fail(m, "C11:free-identifier-refused-as-in-use")
 
 OnOutPuback(m, ev) ==
-  LET i == IdxOf(m.pubs, LAMBDA p : p.id = ev.id /\ p.q = 1 /\ ~p.acked /\ ~p.refused /\ ~p.maybe)
-      d == IdxOf(m.dups, LAMBDA x : x.id = ev.id /\ x.kind = "pub")
-      q2 == IdxOf(m.pubs, LAMBDA p : p.id = ev.id /\ p.q = 2 /\ ~p.recd /\ ~p.refused /\ ~p.maybe)
+  LET i == IdxOf(m.pubs, LAMBDA p : p.id = ev.id /\ p.q = 1 /\ ~p.acked /\ ~p.refused /\ p.st # "arrived")
+      q2 == IdxOf(m.pubs, LAMBDA p : p.id = ev.id /\ p.q = 2 /\ ~p.recd /\ ~p.refused /\ p.st # "arrived")
   IN
-  IF m.ver = 5 /\ ev.r = 145 /\ d > 0
-    THEN [m EXCEPT !.dups = SubSeq(@, 1, d-1) \o SubSeq(@, d+1, Len(@))]
-  ELSE IF m.ver = 5 /\ ev.r = 145
-          /\ IdxOf(m.pubs, LAMBDA p : p.id = ev.id /\ p.maybe /\ p.st = "arrived") > 0
-    THEN LET k == IdxOf(m.pubs, LAMBDA p : p.id = ev.id /\ p.maybe /\ p.st = "arrived") IN
-         [m EXCEPT !.pubs[k].refused = TRUE, !.pubs[k].maybe = FALSE]
-  ELSE IF i = 0 THEN
-    (IF q2 > 0 THEN Fail(m, "C03:qos2-publish-acknowledged-with-puback")
-     ELSE IF m.ver = 5 /\ ev.r = 145 THEN Fail(m, "C11:free-identifier-refused-as-in-use")
-     ELSE Fail(m, "C03:puback-without-matching-publish-or-duplicate"))
-  ELSE
+  IF m.ver = 5 /\ ev.r = 145 /\ ~(i > 0 /\ m.pubs[i].st = "nack" /\ m.pubs[i].code = 145)
+    THEN Refusal(m, ev)
+  ELSE IF i > 0 THEN
     LET p == m.pubs[i]
-        m1 == Answer([m EXCEPT !.pubs[i].acked = TRUE, !.inuse = @ \ {ev.id}], "pub1", ev.id)
-    IN IF p.st \in {"arrived", "started"} THEN Fail(m1, "C03:acknowledged-before-handler-completed")
-       ELSE IF p.st = "err" THEN Fail(m1, "C03:acknowledged-although-handler-failed")
-       ELSE IF p.st = "nack" /\ m.ver = 3 THEN Fail(m1, "C03:acknowledged-although-handler-failed")
-       ELSE IF m.ver = 5 /\ p.st = "nack" /\ ev.r # p.code THEN Fail(m1, "C03:negative-ack-code-differs-from-application-mapping")
-       ELSE IF m.ver = 5 /\ p.st = "ok" /\ ev.r # 0 THEN Fail(m1, "C03:success-handler-acknowledged-with-error-code")
-       ELSE m1
-
-OnOutPubrec(m, ev) ==
-  LET i == IdxOf(m.pubs, LAMBDA p : p.id = ev.id /\ p.q = 2 /\ ~p.recd /\ ~p.refused /\ ~p.maybe)
-      d == IdxOf(m.dups, LAMBDA x : x.id = ev.id /\ x.kind = "pub")
-  IN
-  IF m.ver = 5 /\ ev.r = 145 /\ d > 0
-    THEN [m EXCEPT !.dups = SubSeq(@, 1, d-1) \o SubSeq(@, d+1, Len(@))]
-  ELSE IF i = 0 THEN Fail(m, "C03:pubrec-without-matching-publish-or-duplicate")
-  ELSE
-    LET p == m.pubs[i]
-        m0 == IF m.ver = 5 /\ ev.r >= 128
-                THEN [m EXCEPT !.pubs[i].recd = TRUE, !.pubs[i].rel = TRUE, !.pubs[i].comp = TRUE,
-                               !.pubs[i].relProduced = TRUE, !.inuse = @ \ {ev.id}]
-                ELSE [m EXCEPT !.pubs[i].recd = TRUE]
-        m1 == Answer(m0, "pub2", ev.id)
-    IN IF p.st \in {"arrived", "started"} THEN Fail(m1, "C03:acknowledged-before-handler-completed")
+        m1 == Ordered(m, [m EXCEPT !.pubs[i].acked = TRUE], p.n)
+    IN IF p.st = "started" THEN Fail(m1, "C03:acknowledged-before-handler-completed")
        ELSE IF p.st = "err" \/ (p.st = "nack" /\ m.ver = 3) THEN Fail(m1, "C03:acknowledged-although-handler-failed")
        ELSE IF m.ver = 5 /\ p.st = "nack" /\ ev.r # p.code THEN Fail(m1, "C03:negative-ack-code-differs-from-application-mapping")
        ELSE IF m.ver = 5 /\ p.st = "ok" /\ ev.r # 0 THEN Fail(m1, "C03:success-handler-acknowledged-with-error-code")
        ELSE m1
+  ELSE IF q2 > 0 THEN Fail(m, "C03:qos2-publish-acknowledged-with-puback")
+  ELSE IF IdxOf(m.pubs, LAMBDA p : p.id = ev.id /\ p.q = 1 /\ p.st = "arrived" /\ ~p.refused) > 0
+    THEN Fail(m, "C03:acknowledged-before-handler-completed")
+  ELSE IF ~Healthy(m) THEN m
+  ELSE Fail(m, "C03:puback-without-matching-publish-or-duplicate")
+
+OnOutPubrec(m, ev) ==
+  LET i == IdxOf(m.pubs, LAMBDA p : p.id = ev.id /\ p.q = 2 /\ ~p.recd /\ ~p.refused /\ p.st # "arrived") IN
+  IF m.ver = 5 /\ ev.r = 145 /\ ~(i > 0 /\ m.pubs[i].st = "nack" /\ m.pubs[i].code = 145)
+    THEN Refusal(m, ev)
+  ELSE IF i > 0 THEN
+    LET p == m.pubs[i]
+        m0 == IF m.ver = 5 /\ ev.r >= 128
+                THEN [m EXCEPT !.pubs[i].recd = TRUE, !.pubs[i].rel = TRUE, !.pubs[i].comp = TRUE,
+                               !.pubs[i].relProduced = TRUE]
+                ELSE [m EXCEPT !.pubs[i].recd = TRUE]
+        m1 == Ordered(m, m0, p.n)
+    IN IF p.st = "started" THEN Fail(m1, "C03:acknowledged-before-handler-completed")
+       ELSE IF p.st = "err" \/ (p.st = "nack" /\ m.ver = 3) THEN Fail(m1, "C03:acknowledged-although-handler-failed")
+       ELSE IF m.ver = 5 /\ p.st = "nack" /\ ev.r # p.code THEN Fail(m1, "C03:negative-ack-code-differs-from-application-mapping")
+       ELSE IF m.ver = 5 /\ p.st = "ok" /\ ev.r # 0 THEN Fail(m1, "C03:success-handler-acknowledged-with-error-code")
+       ELSE m1
+  ELSE IF IdxOf(m.pubs, LAMBDA p : p.id = ev.id /\ p.q = 2 /\ p.st = "arrived" /\ ~p.refused) > 0
+    THEN Fail(m, "C03:acknowledged-before-handler-completed")
+  ELSE IF ~Healthy(m) THEN m
+  ELSE Fail(m, "C03:pubrec-without-matching-publish-or-duplicate")
 
 OnOutPubcomp(m, ev) ==
-  LET i == IdxOf(m.pubs, LAMBDA p : p.id = ev.id /\ p.q = 2 /\ p.rel /\ ~p.comp)
-      nf == IdxOf(m.notfound, LAMBDA x : x = ev.id)
+  LET j == IdxOf(m.reqs, LAMBDA r : r.kind = "pubrel" /\ r.id = ev.id /\ r.st = "wait")
+      e == IdxOf(m.reqs, LAMBDA r : r.kind = "pubrel_early" /\ r.id = ev.id /\ r.st = "wait")
+      nf == IdxOf(m.reqs, LAMBDA r : r.kind = "pubrel_nf" /\ r.id = ev.id /\ r.st = "wait")
+      i == IdxOf(m.pubs, LAMBDA p : p.id = ev.id /\ p.q = 2 /\ p.rel /\ ~p.comp)
   IN
-  IF i > 0 THEN Answer([m EXCEPT !.pubs[i].comp = TRUE, !.inuse = @ \ {ev.id}], "pubrel", ev.id)
-  ELSE IF m.ver = 5 /\ ev.r = 146 /\ nf > 0
-    THEN Answer([m EXCEPT !.notfound = SubSeq(@, 1, nf-1) \o SubSeq(@, nf+1, Len(@))], "pubrel_nf", ev.id)
-  ELSE IF m.ver = 5 /\ ev.r = 146 /\ IdxOf(m.maynf, LAMBDA x : x = ev.id) > 0
-    THEN LET k == IdxOf(m.maynf, LAMBDA x : x = ev.id) IN
-         [m EXCEPT !.maynf = SubSeq(@, 1, k-1) \o SubSeq(@, k+1, Len(@))]
+  IF j > 0 /\ (m.ver = 3 \/ ev.r = 0) THEN
+     LET m0 == [m EXCEPT !.reqs[j].st = "answered"]
+         m1 == IF i > 0 THEN [m0 EXCEPT !.pubs[i].comp = TRUE] ELSE m0
+     IN Ordered(m, m1, m.reqs[j].n)
+  ELSE IF nf > 0 /\ m.ver = 5 /\ ev.r = 146 THEN
+     Ordered(m, [m EXCEPT !.reqs[nf].st = "answered"], m.reqs[nf].n)
+  ELSE IF e > 0 THEN
+     \* answer to a premature / misplaced PUBREL: either completion or 0x92 is tolerated
+     LET m0 == [m EXCEPT !.reqs[e].st = "answered"] IN
+     IF i > 0 /\ ev.r = 0 THEN [m0 EXCEPT !.pubs[i].comp = TRUE] ELSE m0
   ELSE IF ~Healthy(m) THEN m
   ELSE Fail(m, "C03:pubcomp-without-matching-pubrel")
 
 OnOutSubAck(m, ev, kind) ==
-  LET d == IdxOf(m.dups, LAMBDA x : x.id = ev.id /\ x.kind = kind)
-      j == IdxOf(m.reqs, LAMBDA r : r.st \in {"wait", "maybe"} /\ r.kind = kind /\ r.id = ev.id)
-      mb == IdxOf(m.reqs, LAMBDA r : r.st = "maybe" /\ r.kind = kind /\ r.id = ev.id)
-  IN IF m.ver = 5 /\ ev.r = 145 /\ d = 0 /\ mb > 0
-       THEN [m EXCEPT !.reqs[mb].st = "answered"]
-     ELSE IF m.ver = 5 /\ ev.r = 145 /\ d > 0
-       THEN [m EXCEPT !.dups = SubSeq(@, 1, d-1) \o SubSeq(@, d+1, Len(@))]
-     ELSE IF j = 0 THEN (IF Healthy(m) THEN Fail(m, "C04:duplicate-or-unsolicited-response") ELSE m)
-     ELSE Answer([m EXCEPT !.inuse = @ \ {ev.id}], kind, ev.id)
+  LET j == IdxOf(m.reqs, LAMBDA r : r.st = "wait" /\ r.kind = kind /\ r.id = ev.id /\ r.h # 0)
+      d == IdxOf(m.reqs, LAMBDA r : r.st = "wait" /\ r.kind = kind /\ r.id = ev.id /\ r.h = 0
+                                     /\ MaybeBusyBefore(m, r.id, r.n))
+  IN IF m.ver = 5 /\ ev.r = 145 /\ d > 0 THEN [m EXCEPT !.reqs[d].st = "refused"]
+     ELSE IF j > 0 THEN Ordered(m, [m EXCEPT !.reqs[j].st = "answered"], m.reqs[j].n)
+     ELSE IF m.ver = 5 /\ ev.r = 145 /\ Healthy(m) THEN Fail(m, "C11:free-identifier-refused-as-in-use")
+     ELSE IF IdxOf(m.reqs, LAMBDA r : r.st = "wait" /\ r.kind = kind /\ r.id = ev.id) > 0 /\ Healthy(m)
+       THEN Fail(m, "C04:response-without-handler")
+     ELSE IF Healthy(m) THEN Fail(m, "C04:duplicate-or-unsolicited-response")
+     ELSE m
 
 OnOutDisconnect(m, ev) ==
-  LET m1 == End([m EXCEPT !.discOut = @ + 1, !.afterDisc = FALSE], "local") IN
+  LET m1 == End([m EXCEPT !.discOut = @ + 1], "local") IN
   IF m.ver # 5 THEN m1
   ELSE IF m.discOut >= 1 THEN Fail(m1, "C15:second-disconnect-written")
   ELSE IF m.discIn /\ ~(m.stopProto \/ m.needProto) THEN Fail(m1, "C15:disconnect-written-after-peers-disconnect")
   ELSE IF m.expectDisc >= 0 /\ ~m.appDisc /\ ev.r # m.expectDisc THEN Fail(m1, "C15:disconnect-does-not-name-the-cause")
-  ELSE IF (m.cause \in {"proto", "error", "timeout"} \/ m.needProto) /\ ~m.appDisc /\ ev.r = 0
+  ELSE IF (m.cause \in {"proto", "error"} \/ m.needProto) /\ ~m.appDisc /\ ev.r = 0
     THEN Fail(m1, "C15:error-reported-as-normal-disconnection")
   ELSE m1
 
@@ -343,7 +335,7 @@ OnOut(m, ev) ==
     [] ev.k = "PINGRESP" ->
          LET j == IdxOf(m0.reqs, LAMBDA r : r.st = "wait" /\ r.kind = "ping") IN
          IF j = 0 THEN (IF Healthy(m0) THEN Fail(m0, "C04:duplicate-or-unsolicited-response") ELSE m0)
-         ELSE Answer(m0, "ping", 0)
+         ELSE Ordered(m0, [m0 EXCEPT !.reqs[j].st = "answered"], m0.reqs[j].n)
     [] ev.k = "DISCONNECT" -> OnOutDisconnect(m0, ev)
     [] OTHER -> m0
 
@@ -358,8 +350,6 @@ OnCtl(m, ev) ==
          IN IF m.stops >= 1 THEN Fail(m2, "C07:more-than-one-stop-notification") ELSE m2
     [] OTHER -> m
 
-OnQuiet(m, ev) == m
-
 \* final{s: gates still open, n: bytes the endpoint has not read}: every gate the harness could
 \* open was opened with outcome ok, to a fixpoint
 OnFinal(m, ev) ==
@@ -370,14 +360,19 @@ OnFinal(m, ev) ==
   ELSE IF ~Healthy(m) THEN
      (IF m.est /\ m.stops > 0 /\ ~m.connDone /\ ~m.gateStop /\ ev.s = 0
         THEN Fail(m, "C07:connection-task-did-not-complete-after-stop") ELSE m)
-  ELSE IF \E i \in 1..Len(m.pubs) : ~m.pubs[i].refused /\ ~m.pubs[i].maybe /\ m.pubs[i].st = "arrived"
-    THEN Fail(m, IF ev.n > 0 THEN "C12:reading-never-resumed" ELSE "C03:accepted-publish-never-handled")
-  ELSE IF m.ver = 5 /\ Len(m.dups) > 0
-    THEN Fail(m, "C11:in-use-identifier-not-answered-with-reason-0x91")
-  ELSE IF m.ver = 5 /\ Len(m.notfound) > 0
-    THEN Fail(m, "C11:pubrel-for-unknown-id-not-answered-with-0x92")
-  ELSE IF \E i \in 1..Len(m.reqs) : m.reqs[i].st = "wait"
+  ELSE IF \E i \in 1..Len(m.pubs) : ~m.pubs[i].refused /\ m.pubs[i].st = "arrived"
+    THEN Fail(m, IF ev.n > 0 THEN "C12:reading-never-resumed"
+                 ELSE IF \E i \in 1..Len(m.pubs) : ~m.pubs[i].refused /\ m.pubs[i].st = "arrived"
+                                                    /\ m.pubs[i].q > 0 /\ MaybeBusyBefore(m, m.pubs[i].id, m.pubs[i].n)
+                   THEN "C11:in-use-identifier-not-answered-with-reason-0x91"
+                 ELSE "C03:accepted-publish-never-handled")
+  ELSE IF \E i \in 1..Len(m.pubs) : LET p == m.pubs[i] IN
+            ~p.refused /\ p.st \in {"ok", "nack"} /\ ((p.q = 1 /\ ~p.acked) \/ (p.q = 2 /\ ~p.recd))
+            /\ ~(p.st = "nack" /\ m.ver = 3)
     THEN Fail(m, "C04:response-lost")
+  ELSE IF \E i \in 1..Len(m.reqs) : m.reqs[i].st = "wait" /\ m.reqs[i].kind # "pubrel_early"
+    THEN Fail(m, IF \E i \in 1..Len(m.reqs) : m.reqs[i].st = "wait" /\ m.reqs[i].kind = "pubrel_nf"
+                   THEN "C11:pubrel-for-unknown-id-not-answered-with-0x92" ELSE "C04:response-lost")
   ELSE IF ev.n > 0 THEN Fail(m, "C16:endpoint-stopped-reading-without-ending-the-connection")
   ELSE m
 
@@ -391,7 +386,6 @@ Step(m, ev) ==
     [] ev.e = "h_end" -> OnHEnd(m, ev)
     [] ev.e = "h_drop" -> OnHDrop(m, ev)
     [] ev.e = "ctl" -> OnCtl(m, ev)
-    [] ev.e = "quiet" -> OnQuiet(m, ev)
     [] ev.e = "final" -> OnFinal(m, ev)
     [] ev.e = "panic" -> Fail(m, "C16:panic")
     [] ev.e = "conn_done" -> End([m EXCEPT !.connDone = TRUE], "local")
